@@ -7,5 +7,7 @@ CONSTANTS
   AtomicSet = {FALSE}
   TrackLast = FALSE
   UseRoller = TRUE
+  SplitNew = TRUE
+  NewLoads = 1
 INVARIANTS TypeOK C03_Run C03_NoDeath
 CHECK_DEADLOCK FALSE
